@@ -22,10 +22,15 @@ pub fn generate(seed: u64, tier: Tier) -> Case {
     let family = *rng.pick(&[
         "valid", "valid", "valid", "valid", "error", "vftable_name", "vftable_name",
         "vftable_name", "registry_collision", "disk_collision", "graph", "graph",
-        "shadowed_generated_name",
+        "shadowed_generated_name", "generated_name_cycle",
     ]);
     let mut params = Params::default();
     let (project, mut world) = match family {
+        "generated_name_cycle" => {
+            let g = gen_generated_name_cycle(&mut rng, ptr);
+            let w = World::from_files(ptr, g.files());
+            (g, w)
+        }
         "shadowed_generated_name" => {
             let g = gen_shadow_project(&mut rng, ptr);
             let w = World::from_files(ptr, g.files());
@@ -269,6 +274,136 @@ pub fn mention_generated_vftable(rng: &mut Rng, p: &mut Project) -> bool {
     true
 }
 
+/// `Owner` (with a vftable block) embeds, through a chain of by-value fields, a type that
+/// mentions `OwnerVftable`: the owner cannot be laid out before the chain's end, and the
+/// chain's end cannot be resolved before the owner has been *attempted* once.
+pub fn gen_generated_name_cycle(rng: &mut Rng, ptr: usize) -> Project {
+    let mut p = Project {
+        ptr,
+        modules: vec![],
+        items: vec![],
+        style: rng.next_u64(),
+    };
+    let nmod = rng.range(1, 2);
+    for k in 0..nmod {
+        p.modules.push(Module {
+            path: vec![format!("cyc{k}")],
+            type_imports: rng.chance(1, 2),
+            ..Default::default()
+        });
+    }
+    let chain = rng.range(1, 4);
+    // items[0] = Owner, items[1..=chain] = links, the last link mentions OwnerVftable.
+    let vty = Ty::Name("OwnerVftable".into());
+    let mention_in_field = rng.chance(1, 2);
+    for k in (1..=chain).rev() {
+        // placeholder order: pushed below in index order
+        let _ = k;
+    }
+    p.items.push(Item {
+        module: 0,
+        name: "Owner".into(),
+        vis: true,
+        doc: None,
+        kind: ItemKind::Type {
+            fields: vec![field("link", Ty::Item(1))],
+            vftable: Some(crate::project::Vft {
+                funcs: (0..rng.range(0, 2))
+                    .map(|i| Func {
+                        vis: true,
+                        name: format!("vf{i}"),
+                        recv: Some(false),
+                        args: vec![],
+                        ret: None,
+                        address: None,
+                        index: None,
+                        cc: None,
+                        doc: None,
+                    })
+                    .collect(),
+                size: None,
+            }),
+            size: None,
+            align: Some(ptr),
+            packed: false,
+            flags: Flags::default(),
+            singleton: None,
+            impl_funcs: vec![],
+            semicolon_form: false,
+        },
+        csize: 0,
+        calign: ptr,
+        vslots: None,
+    });
+    for k in 1..=chain {
+        let last = k == chain;
+        let module = rng.below(nmod);
+        let fields = if !last {
+            vec![field("next", Ty::Item(k + 1))]
+        } else if mention_in_field {
+            vec![field("table", vty.clone().cptr())]
+        } else {
+            vec![field("pad", Ty::Prim("u8").arr(ptr))]
+        };
+        let impl_funcs = if last && !mention_in_field {
+            vec![Func {
+                vis: true,
+                name: "uses_table".into(),
+                recv: Some(false),
+                args: vec![("table".into(), vty.clone().cptr())],
+                ret: rng.chance(1, 2).then(|| vty.clone().cptr()),
+                address: Some(0x1000),
+                index: None,
+                cc: None,
+                doc: None,
+            }]
+        } else {
+            vec![]
+        };
+        p.items.push(Item {
+            module,
+            name: format!("Link{k}"),
+            vis: true,
+            doc: None,
+            kind: ItemKind::Type {
+                fields,
+                vftable: None,
+                size: None,
+                align: Some(ptr),
+                packed: false,
+                flags: Flags::default(),
+                singleton: None,
+                impl_funcs,
+                semicolon_form: false,
+            },
+            csize: ptr,
+            calign: ptr,
+            vslots: None,
+        });
+        if module != 0 && last {
+            let owner_path = p.modules[0].item_path();
+            let line = if rng.chance(1, 2) {
+                format!("use {owner_path}::OwnerVftable;")
+            } else {
+                format!("use {owner_path};")
+            };
+            p.modules[module].extra_uses.push(line);
+        }
+    }
+    for i in 0..p.items.len() {
+        let m = p.items[i].module;
+        let pos = rng.below(p.modules[m].order.len() + 1);
+        p.modules[m].order.insert(pos, Decl::Item(i));
+        if let ItemKind::Type { impl_funcs, .. } = &p.items[i].kind {
+            if !impl_funcs.is_empty() {
+                let pos = rng.below(p.modules[m].order.len() + 1);
+                p.modules[m].order.insert(pos, Decl::Impl(i));
+            }
+        }
+    }
+    p
+}
+
 /// A generated `<T>Vftable` name competing with another definition of the same short name that
 /// an import brings into scope: which one a mention binds to must not depend on whether `T`
 /// has been attempted yet.
@@ -322,6 +457,59 @@ pub fn gen_shadow_project(rng: &mut Rng, ptr: usize) -> Project {
         calign: ptr,
         vslots: None,
     };
+    // Variant without any generated name: two plain definitions of one short name, both in
+    // scope through module imports; which one wins is a matter of scope order only.
+    if rng.chance(1, 3) {
+        for (module, bytes) in [(0usize, 4usize), (1, 12)] {
+            p.items.push(Item {
+                module,
+                name: "ThingVftable".into(),
+                vis: true,
+                doc: None,
+                kind: ItemKind::Type {
+                    fields: vec![field("bytes", Ty::Prim("u8").arr(bytes * ptr))],
+                    vftable: None,
+                    size: None,
+                    align: Some(ptr),
+                    packed: false,
+                    flags: Flags::default(),
+                    singleton: None,
+                    impl_funcs: vec![],
+                    semicolon_form: false,
+                },
+                csize: 0,
+                calign: ptr,
+                vslots: None,
+            });
+        }
+        let owner_path = p.modules[0].item_path();
+        let other_path = p.modules[1].item_path();
+        let mut lines = vec![format!("use {owner_path};"), format!("use {other_path};")];
+        if rng.chance(1, 2) {
+            lines.reverse();
+        }
+        let m = if rng.chance(1, 2) {
+            p.modules[2].extra_uses.extend(lines);
+            2
+        } else {
+            p.modules[0].extra_uses.push(format!("use {other_path};"));
+            0
+        };
+        let idx = p.items.len();
+        let vty = Ty::Name("ThingVftable".into());
+        let f = if rng.chance(1, 2) {
+            field("table", vty)
+        } else {
+            field("table", vty.cptr())
+        };
+        push_simple_type(rng, &mut p, m, idx, vec![f]);
+        for i in 0..2 {
+            let m = p.items[i].module;
+            let pos = rng.below(p.modules[m].order.len() + 1);
+            p.modules[m].order.insert(pos, Decl::Item(i));
+        }
+        return p;
+    }
     // owner::Thing has a vftable block, so owner::ThingVftable comes into existence during
     // resolution.
     p.items.push(owner_type(0, rng.range(1, 3), ptr));
